@@ -166,6 +166,9 @@ pub fn vec2_push<T>(v: &mut Vec<Vec<T>>, i: usize, x: T)
 { v[i].push(x) }
 // `usize::min` (Ord::min on integers)
 pub fn usize_min(a: usize, b: usize) -> (r: usize) ensures r == (if a <= b { a } else { b }) { if a <= b { a } else { b } }
+// `&String` used as `&str` (deref coercion)
+#[verifier::external_body]
+pub fn string_as_str(s: &String) -> (r: &str) ensures str_bytes(r) == string_bytes(s) { s.as_str() }
 // `str::to_owned`
 pub uninterp spec fn string_bytes(s: &String) -> Seq<u8>;
 #[verifier::external_body]
